@@ -338,6 +338,53 @@ def sibling_steps(rep, kind):
     return n
 
 
+def settings_steps(rep, kind):
+    """Pairs of settings changes with reads in between: construct -> read everything -> change A -> read everything -> change B
+    -> every derived quantity equals what a fresh object with the settings now in force reports.  The changes come in the
+    forms a caller has: new arrays of the SAME count as the ones in force (the default count 50 among them), the by-range
+    forms with the default and with other limits / counts, in-place edits, generator keywords."""
+    import eqsig
+    cls = eqsig.AccSignal if kind == "AccSignal" else eqsig.Signal
+    c50 = np.logspace(-0.8, 1.3, 50)
+    forms = [("smooth_fa_freqs = 50 custom", lambda o: setattr(o, "smooth_fa_freqs", c50.copy())),
+             ("smooth_fa_frequencies = 50 other custom", lambda o: setattr(o, "smooth_fa_frequencies", c50 * 1.1)),
+             ("smooth_fa_freqs = 9 custom", lambda o: setattr(o, "smooth_fa_freqs", FREQ_B.copy())),
+             ("set_smooth_fa_frequecies_by_range((0.1, 30), 50)", lambda o: o.set_smooth_fa_frequecies_by_range((0.1, 30), 50)),
+             ("set_smooth_fa_frequecies_by_range((0.4, 18), 11)", lambda o: o.set_smooth_fa_frequecies_by_range((0.4, 18.0), 11)),
+             ("smooth_freq_range = (0.1, 30)", lambda o: setattr(o, "smooth_freq_range", (0.1, 30))),
+             ("smooth_freq_range = (0.45, 17)", lambda o: setattr(o, "smooth_freq_range", (0.45, 17.0))),
+             ("smooth_freq_points = 50", lambda o: setattr(o, "smooth_freq_points", 50)),
+             ("smooth_freq_points = 14", lambda o: setattr(o, "smooth_freq_points", 14)),
+             ("gen_smooth_fa_spectrum(smooth_fa_freqs=50 custom)", lambda o: o.gen_smooth_fa_spectrum(smooth_fa_freqs=c50 * 0.9)),
+             ("smooth_fa_freqs *= 1.25 in place", lambda o: setattr(o, "smooth_fa_freqs", o.smooth_fa_freqs.__imul__(1.25)))]
+    if kind == "AccSignal":
+        forms += [("response_times = 4 custom", lambda o: setattr(o, "response_times", RT_B.copy())),
+                  ("response_times = 3 custom", lambda o: setattr(o, "response_times", RT_A * 1.3)),
+                  ("gen_response_spectrum(response_times=3 custom)", lambda o: o.gen_response_spectrum(response_times=RT_A * 0.8)),
+                  ("response_series(response_times=4 custom)", lambda o: o.response_series(response_times=RT_B * 1.1))]
+    n = 0
+    for ctor in (0, 1):
+        for an, fa_ in forms:
+            for bn, fb_ in forms:
+                o = make(kind) if ctor else cls(base_record(), 0.01)
+                try:
+                    read_all_inplace(o, kind)
+                    apply_op(o, fa_)
+                    read_all_inplace(o, kind)
+                    apply_op(o, fb_)
+                    codes, fresh, got = project(o, kind)
+                except Exception as ex:
+                    rep.fail("Raises", "settings", {"kind": kind, "first": an, "then": bn, "error": "%s: %s" % (type(ex).__name__, ex)})
+                    continue
+                n += 1
+                rep.count("SettingsPair")
+                stale = [q for q in QORDER[kind] if not fresh[q]] + [r for r in UNCACHED if not fresh[r]]
+                if stale:
+                    rep.fail("NoStale[%s]" % stale[0], "settings", {"kind": kind, "constructed": ["with the default settings", "with custom settings"][ctor],
+                                                                     "first": an, "then": bn, "stale": stale})
+    return n
+
+
 def explicit_steps(rep, kind):
     """Explicit generator calls with non-default settings: (1) what is read straight afterwards equals what a fresh object
     reports after the same explicit call (a generator may not skip its work because something is memoised); (2) a following
@@ -491,7 +538,7 @@ def run(tier, seed):
         # 2. spec -> code: every edge of the graph on a real object
         nedges, nstates = walk_graph(rep, kind, edges)
         rep.evaluations += nedges
-        rep.extra["walk_%s" % kind] = {"model_states": nstates, "edges_executed": nedges, "sibling_steps": sibling_steps(rep, kind),
+        rep.extra["walk_%s" % kind] = {"model_states": nstates, "edges_executed": nedges, "sibling_steps": sibling_steps(rep, kind), "settings_pairs": settings_steps(rep, kind),
                                         "explicit_generator_steps": explicit_steps(rep, kind)}
         # 3. long random behaviours from TLC (-simulate), replayed and logged
         if tier == "thorough":
